@@ -5,7 +5,7 @@
    Measurements.__init__/get_values, [get_group(s)] = get_annotation_group(s). *)
 From Coq Require Import String ZArith List Bool.
 From HD Require Import Base.Val C18_Model C18_Proofs C18_Proofs_Meas C18_Proofs_Index C18_Proofs_General C18_Proofs_History
-  C18_Proofs_Parsed C18_Proofs_Object C18_Proofs_Int32 C18_Proofs_Finite.
+  C18_Proofs_Parsed C18_Proofs_Object C18_Proofs_Int32 C18_Proofs_Finite C18_Proofs_Counts.
 Import ListNotations.
 Open Scope Z_scope.
 
@@ -602,3 +602,68 @@ Example C18_example_non_finite_shared_z :
   encode false POINT ok32 = Ok (mkEnc false POINT 2 [1065353216; 1073741824; 1077936128; 1082130432] (Some 1084227584) None).
 Proof. repeat split; vm_compute; reflexivity. Qed.
 Print Assumptions C18_example_non_finite_shared_z.
+
+(* ---- the point count rule holds for EVERY annotation, whatever the total -------------------------
+   [fixed_count]: POINT 1, ELLIPSE 4, RECTANGLE 4; [min_count]: POLYLINE 2, POLYGON 3 *)
+Theorem C18_accepted_counts : forall dbl gt gd e, encode dbl gt gd = Ok e ->
+  forall a, In a gd -> count_ok gt (zlen a) = true.
+Proof. exact accepted_counts. Qed.
+Print Assumptions C18_accepted_counts.
+
+Theorem C18_accepted_counts_fixed : forall dbl gt gd e k, encode dbl gt gd = Ok e -> fixed_count gt = Some k ->
+  (forall a, In a gd -> zlen a = k) /\ zlen (concat gd) = k * zlen gd.
+Proof. exact accepted_counts_fixed. Qed.
+Print Assumptions C18_accepted_counts_fixed.
+
+(* one annotation of another size anywhere: ValueError, also when the sizes add up to k * n *)
+Theorem C18_reject_wrong_count_any_total : forall dbl gt gd k a, fixed_count gt = Some k ->
+  In a gd -> zlen a <> k -> encode dbl gt gd = Err VE.
+Proof. exact reject_wrong_count_any_total. Qed.
+Print Assumptions C18_reject_wrong_count_any_total.
+
+Theorem C18_reject_too_few_points : forall dbl gt gd a,
+  In a gd -> zlen a < min_count gt -> encode dbl gt gd = Err VE.
+Proof. exact reject_too_few_points. Qed.
+Print Assumptions C18_reject_too_few_points.
+
+(* on non-empty input passing every other rule: accepted <-> every annotation obeys the count rule *)
+Theorem C18_accepted_iff_counts : forall dbl gt gd, gd <> [] ->
+  (gt = POLYGON -> forall a, In a gd -> closed dbl a = false) ->
+  (exists d, (d = 2 \/ d = 3) /\ forall a r, In a gd -> In r a -> zlen r = d) ->
+  (forall a r w, In a gd -> In r a -> In w r -> is_finite dbl w = true) ->
+  ((exists e, encode dbl gt gd = Ok e) <-> (forall a, In a gd -> count_ok gt (zlen a) = true)).
+Proof. exact accepted_iff_counts. Qed.
+Print Assumptions C18_accepted_iff_counts.
+
+(* a test of the total number of points alone is strictly weaker than the rule: outlines of 3 + 5
+   points (8 = 4 * 2), a pair of points next to an empty array (2 = 1 * 2), polylines of 1 + 3 and open
+   polygons of 2 + 6 points - everything else in order, all refused *)
+Theorem C18_total_count_check_insufficient :
+  (forall gt, gt = ELLIPSE \/ gt = RECTANGLE ->
+     zlen (concat three_five) = 4 * zlen three_five /\ others_in_order false three_five /\
+     encode false gt three_five = Err VE) /\
+  (zlen (concat two_zero) = 1 * zlen two_zero /\ others_in_order false two_zero /\
+   encode false POINT two_zero = Err VE) /\
+  (2 * zlen [firstn 1 eight_points; skipn 5 eight_points] <= zlen (concat [firstn 1 eight_points; skipn 5 eight_points]) /\
+   encode false POLYLINE [firstn 1 eight_points; skipn 5 eight_points] = Err VE) /\
+  (3 * zlen [firstn 2 eight_points; skipn 2 eight_points] <= zlen (concat [firstn 2 eight_points; skipn 2 eight_points]) /\
+   closed false (firstn 2 eight_points) = false /\ closed false (skipn 2 eight_points) = false /\
+   encode false POLYGON [firstn 2 eight_points; skipn 2 eight_points] = Err VE).
+Proof. exact total_count_check_insufficient. Qed.
+Print Assumptions C18_total_count_check_insufficient.
+
+(* non-vacuity: the 3 + 5 group, had it been written, decodes to 4 + 4 (same points, another partition);
+   the well-formed 4 + 4 group of the same points is accepted and meets C18_accepted_counts_fixed *)
+Example C18_example_counts :
+  (let e := mkEnc false ELLIPSE (zlen three_five) (concat (concat three_five)) None None in
+   decode e 2 = Ok [firstn 4 eight_points; skipn 4 eight_points] /\
+   concat [firstn 4 eight_points; skipn 4 eight_points] = concat three_five /\
+   [firstn 4 eight_points; skipn 4 eight_points] <> three_five) /\
+  (exists e, encode false ELLIPSE [firstn 4 eight_points; skipn 4 eight_points] = Ok e /\
+             decode e 2 = Ok [firstn 4 eight_points; skipn 4 eight_points]) /\
+  fixed_count ELLIPSE = Some 4 /\ In (firstn 3 eight_points) three_five /\ zlen (firstn 3 eight_points) <> 4.
+Proof.
+  split; [exact total_count_moves_points|]. split; [eexists; split; vm_compute; reflexivity|].
+  split; [reflexivity|]. split; [now left|]. vm_compute. discriminate.
+Qed.
+Print Assumptions C18_example_counts.
